@@ -275,7 +275,10 @@ where
 {
     match (a, b) {
         (Val::Float(x), Val::Float(y)) => Val::Float(x.powf(y)),
-        (Val::Float(x), Val::Int(y)) => Val::Float(x.powi(y.to_i32().unwrap())),
+        (Val::Float(x), Val::Int(y)) => match y.to_i32() {
+            Some(exponent) => Val::Float(x.powi(exponent)),
+            None => Val::Error(exerr!("cannot convert {:?} to exponent of a float", y)),
+        },
         (Val::Int(x), Val::Int(y)) => match y.to_usize() {
             Some(exponent_) => match num::checked_pow(x, exponent_) {
                 Some(res) => Val::Int(res),
